@@ -76,6 +76,8 @@ def _ext_cut(cell, tier):
         for c in vals:
             if tier == "quick" and not (e == c or (e, c) in ((0.5, 1.5 * hm), (1.5 * hm, 0.5), (1.0, hm), (hm, 1.0))):
                 continue
+            if 0.2 in (e, c) and max(e, c) > 0.5:
+                continue  # a 0.2 A cutoff with a large extension means ~10^5-10^6 bins per cell list: explored with small partners only
             pairs.append((e, c))
     return pairs
 
